@@ -315,6 +315,11 @@ def __getattr__(name):
             _SPY_CACHE[name] = _make_failing_naive()
             globals()[name] = _SPY_CACHE[name]
         return _SPY_CACHE[name]
+    if name == "XNaive":
+        if name not in _SPY_CACHE:
+            _SPY_CACHE[name] = _make_x_naive()
+            globals()[name] = _SPY_CACHE[name]
+        return _SPY_CACHE[name]
     if name == "SpyTransformer":
         if name not in _SPY_CACHE:
             _SPY_CACHE[name] = _make_spy_transformer()
@@ -344,6 +349,28 @@ def _make_failing_naive():
     FailingNaive.__module__ = "simkit.peers"
     FailingNaive.__qualname__ = "FailingNaive"
     return FailingNaive
+
+
+def _make_x_naive():
+    from sktime.forecasting.naive import NaiveForecaster
+
+    class XNaive(NaiveForecaster):
+        """A real NaiveForecaster whose forecasts also depend on the exogenous data it was
+        FITTED with (a level shift by the mean of X's first column), so that a fit that
+        silently loses X is visible in the forecasts."""
+
+        def fit(self, y, X=None, fh=None):
+            self.x_level_ = 0.0 if X is None else float(np.asarray(X.iloc[:, 0], float).mean())
+            return super(XNaive, self).fit(y, X=X, fh=fh)
+
+        def _predict_last_window(self, fh, X=None, return_pred_int=False, alpha=0.05):
+            out = super(XNaive, self)._predict_last_window(fh, X=X, return_pred_int=return_pred_int,
+                                                          alpha=alpha)
+            return out + self.x_level_
+
+    XNaive.__module__ = "simkit.peers"
+    XNaive.__qualname__ = "XNaive"
+    return XNaive
 
 
 def _make_spy_transformer():
